@@ -74,9 +74,13 @@ def explicit_values(p):
                 ("y", str(-(2 ** (n - 1)) + 1), str(2 ** (n - 1) - 2), str(2 ** (n - 1) - 1)), ("w", "-010", "0099", "-000")]
     if p == "float":
         return [("x", "-INF", "INF", "NaN"), ("y", "-1.5", "3.4028235e38", "-1.0"), ("z", "1e-3", "16777216.0", "-0.0"),
-                ("w", "-010", "0099", "010.5")]
+                ("w", "-010", "0099", "010.5"),
+                # flavour "v": written as integers whose magnitude is beyond the 64-bit integer literals of C++ (every value
+                # here is exactly representable as float, so there is one correct bit pattern)
+                ("v", "-9223372036854775808", "100000000000000000000", "18446744073709551616")]
     return [("x", "-INF", "+INF", "NaN"), ("y", "-1.5", "1.7976931348623157e308", "-1.0"), ("z", "1e-3", "9007199254740993.0", "-0.0"),
-            ("w", "-010", "0099", "0010")]
+            ("w", "-010", "0099", "0010"),
+            ("v", "-9223372036854775808", "18446744073709551616", "-100000000000000000000")]
 
 
 def build_cases():
